@@ -58,6 +58,12 @@ class MsgProp:
     def judge(self, rep, cfg, label, ops, impl, model):
         for op, a, m in zip(ops, impl, model):
             rep.evaluations += 1
+            if label == "foreign-decoder":
+                # a per-type decoder handed another type's payload: compared only where both sides report a message
+                if a.startswith("ok") and m.startswith("ok") and self.project(op, a) != self.project(op, m):
+                    rep.violation(f"{self.name}: a per-type decoder reports other values than the model for the same bits: "
+                                  f"impl={self.project(op, a)!r} model={self.project(op, m)!r}", {"cfg": cfg, "ops": [op], "impl": a, "model": m})
+                continue
             pa, pm = self.project(op, a), self.project(op, m)
             rep.count(label.split(":")[0])
             rep.count("impl:" + a.split(" ")[0] + (":" + a.split(" ")[1] if a.startswith("ok ") else ""))
@@ -145,7 +151,9 @@ class MsgProp:
                                   report=rng.choice([b"VDM", b"VDO", b"VDX"]), delim=rng.choice([b"!", b"$"]),
                                   tagblock=rng.choice([None, b"c:%d*00" % i, b"g:%d-%d-%d" % (rng.choice([1, i + 1, n]), rng.choice([1, n, 9]), rng.randrange(1, 99)),
                                                        b"g:1-1-5*00"]))
-                    ops.append(L(ais.sentence(pc, fill=fill if i == n - 1 else 0, nf=n, fn=i + 1, mid=mid, **kw), 0, 1))
+                    # (a fill count on a non-final fragment is legal and means nothing: only the last one's counts)
+                    fl_i = fill if i == n - 1 else (rng.randrange(6) if vary and rng.random() < 0.5 else 0)
+                    ops.append(L(ais.sentence(pc, fill=fl_i, nf=n, fn=i + 1, mid=mid, **kw), 0, 1))
                     if i < n - 1 and rng.random() < 0.4:
                         # a repeated or stray fragment: rejected, and must leave nothing behind
                         j = rng.choice([i + 1, i + 3]) if i > 0 else i + 3
@@ -153,7 +161,16 @@ class MsgProp:
                     if i < n - 1 and rng.random() < 0.3:
                         # the number the group expects next under ANOTHER id (absent, 0 and 255 are three different ids),
                         # or the right numbering spelled as value + 256: rejected, nothing appended
-                        if rng.random() < 0.6:
+                        if rng.random() < 0.3:
+                            from .props_hist import alias_strays
+                            pool_ = alias_strays(rng, mid, i + 2)
+                            if pool_:
+                                ops.append(L(rng.choice(pool_), 0, 1))
+                        elif rng.random() < 0.3:
+                            # the expected number plus a multiple of 16 (and 255), own or foreign id
+                            g = min(255, i + 2 + 16 * rng.choice([1, 2, 3, 8, 15]))
+                            ops.append(L(ais.sentence(gen.random_alphabet(rng, 6), fill=0, nf=max(n, g), fn=g, mid=rng.choice([mid, None, 0, 1])), 0, 1))
+                        elif rng.random() < 0.6:
                             oid = rng.choice([x for x in (None, 0, 255, 1, 254, (mid or 0) + 1) if x != mid])
                             ops.append(L(ais.sentence(gen.random_alphabet(rng, 6), fill=0, nf=n, fn=i + 2, mid=oid), 0, 1))
                         else:
@@ -422,6 +439,16 @@ def coord_cases(rng, tier):
                         f[name] = v
                         ops.append(m_op(gen.full_payload(t, f) + gen.tail_for(t, rng)))
         yield (f"coord:{t}", ops)
+    # the per-type public decoders handed a position report of another type (op P): when implementation and model
+    # both report a message, the reported position fields are the same
+    ops = []
+    for t in (1, 4, 9, 18, 19, 21, 27, 17):
+        f = gen.base_fields(t, rng, ais.LAYOUTS[t])
+        bs = gen.full_payload(t, f) + bytes(rng.getrandbits(8) for _ in range(20))
+        for t2 in (1, 4, 9, 11, 18, 19, 21, 27, 17):
+            if t2 != t:
+                ops.append(f"P {t2} {hexs(bs)}")
+    yield ("foreign-decoder", ops)
     # interrogation slot offsets
     ops = []
     # slot offsets cut off by the end of the payload (every even bit length): absent, never a partial number
@@ -581,6 +608,12 @@ class C10(MsgProp):
                     rep.violation("C10: implementation panics", {"cfg": cfg, "ops": [op], "impl": a})
                 continue
             rep.nontrivial.add(op)
+            if label == "foreign-decoder":
+                if self.project(op, a) != self.project(op, m):
+                    rep.violation("C10: a per-type decoder handed another type's payload reports other scaled values than the model "
+                                  f"for the same bits: impl={self.project(op, a)!r} model={self.project(op, m)!r}",
+                                  {"cfg": cfg, "ops": [op], "impl": a, "model": m})
+                continue
             for k, v in pa["kv"].items():
                 if base(k) not in F32:
                     continue
@@ -796,6 +829,16 @@ class C13(MsgProp):
                 f["destination"] = v
                 ops.append(m_op(gen.full_payload(5, f)[:nbytes]))
         yield ("text:5-truncated", ops)
+        # every text-bearing layout cut at every byte length: a text is reported only with the message it belongs to, and
+        # then it is the decoding of its whole bit range
+        ops = []
+        for t in (19, 21, "24A", "24B", 12, 14):
+            for _ in range(2):
+                f = gen.base_fields(t, rng, ais.LAYOUTS[t])
+                bs = gen.full_payload(t, f) + (ais.bits_to_bytes([rng.getrandbits(1) for _ in range(48)]) if t in (12, 14) else b"")
+                for nb in range(3, len(bs) + 1):
+                    ops.append(m_op(bs[:nb]))
+        yield ("text:truncated", ops)
         for t, hdr in ((12, 72), (14, 40)):
             ops = []
             lens = list(range(1, 30)) + [40, 60, 100, 155, 156, 157] if tier == "quick" else list(range(1, 160))
@@ -1109,6 +1152,16 @@ class C03:
                 for at in (0, 1, 3, 4, 8):
                     s0 = gen.random_alphabet(rng, at) + bytes([bad]) * run + gen.random_alphabet(rng, rng.choice([0, 1, 4, 24]))
                     ops.append(f"U {rng.randrange(6)} {s0.hex()}")
+        # tails that are runs of one character ('0': all zero bits; 'w': all ones) of 1..12 characters, after a body whose
+        # last bits are set, with every fill count: the fill bits are the last bits of the WHOLE string
+        for run in range(1, 13):
+            for tailc in (b"0", b"w", b"@"):
+                for fill in range(6):
+                    body = gen.random_alphabet(rng, rng.choice([1, 2, 3, 4, 5, 9, 28])) + rng.choice([b"w", b"W", b"9", b"?"])
+                    ops.append(f"U {fill} {(body + tailc * run).hex()}")
+        for last in gen.ALPHABET:
+            for fill in range(6):
+                ops.append(f"U {fill} {(gen.random_alphabet(rng, rng.choice([2, 3, 6])) + bytes([last])).hex()}")
         for n in range(1, 61):
             for fill in range(6):
                 for first in b"1358;":
